@@ -15,8 +15,10 @@ Out(ms, ln, cl) ==
   [k  |-> Bases[base].kind,
    b  |-> Bases[base].name,
    m  |-> IF Len(ms) = 1 THEN MutName(ms[1]) ELSE MutName(ms[1]) \o "+" \o MutName(ms[2]),
-   c  |-> cl.c,
+   \* a line after which the stream ends cannot be delivered: the command is never completed
+   c  |-> IF cl.c = "D" /\ (\E i \in 1..Len(ms) : ms[i].op = "trunc") THEN "X" ELSE cl.c,
    w  |-> cl.w,
+   wi |-> cl.at,
    \* a truncated line is the end of the stream; otherwise the command is completed
    e  |-> IF \E i \in 1..Len(ms) : ms[i].op = "trunc" THEN "close" ELSE "ok",
    st |-> IF cl.c = "D" THEN Bases[cl.b].st ELSE "OK",
